@@ -168,11 +168,30 @@ BASES = {"bigpeak": base_bigpeak, "zero": base_zero, "neg": base_neg, "alt": bas
          "twopeak": base_twopeak}
 
 
+_GUARD = None
+
+
+def hang_guard():
+    """Every execution runs under the deterministic branch budget (sys.monitoring), so that code that loops forever
+    ends the execution (counted as a crash, C01's business) instead of freezing the check."""
+    global _GUARD
+    if _GUARD is None:
+        import os as _os
+
+        if _os.environ.get("XMC_NO_GUARD"):
+            _GUARD = False
+        else:
+            _GUARD = StepBudget(configs.PKG_DIR, limit=int(_os.environ.get("XMC_STEP_LIMIT", "5000000")))
+            _GUARD.install()
+    return _GUARD
+
+
 def execute(cfg, script, expect, changed_pos, T, reward_fn, oracles, learner_classes=None, labels=None,
             construct_hook=None):
     """Run one execution; returns (points_of_choice_source, ctx).  Raises Violation /
     AlgoCrash / HarnessError."""
     sm = seam()
+    guard = hang_guard()
     src = ChoiceSource(script, expect)
     sm.set_source(src)
     sm.choice_log.clear()
@@ -202,6 +221,8 @@ def execute(cfg, script, expect, changed_pos, T, reward_fn, oracles, learner_cla
         ctx.calls_mark = len(ctx.rec.calls)
         lab = t if labels is None else labels(t)
         ctx.label = lab
+        if guard:
+            guard.reset()
         try:
             x = ctx.algo.pull(lab)
         except (Violation, HarnessError):
@@ -225,6 +246,8 @@ def execute(cfg, script, expect, changed_pos, T, reward_fn, oracles, learner_cla
         r = reward_fn(ctx)
         ctx.r = r
         ctx.rewards.append(r)
+        if guard:
+            guard.reset()
         try:
             ctx.algo.receive_reward(lab, r)
         except (Violation, HarnessError):
